@@ -155,9 +155,13 @@ def parse_template(path):
         elif word == 'at':
             toks = _bt(rest)
             a = {'pos': toks[0][1], 'k': None, 'text': None, 'nth': None, 'lines': [], 'line': ln}
+            a['alts'] = []
             for kind, v in toks[1:]:
                 if kind == 'q':
-                    a['text'] = v
+                    if a['text'] is None:
+                        a['text'] = v
+                    else:
+                        a['alts'].append(v)
                 elif v.startswith('#'):
                     a['nth'] = int(v[1:])
                 else:
@@ -322,7 +326,7 @@ def assemble(unit_dir, mode='verify'):
             anchors = []
             for n, a in enumerate(c.ats):
                 if a['pos'] in ('before', 'after'):
-                    anchors.append({'id': n, 'pos': a['pos'], 'text': a['text'], 'nth': a['nth']})
+                    anchors.append({'id': n, 'pos': a['pos'], 'text': a['text'], 'nth': a['nth'], 'alts': a.get('alts', [])})
             idx[id(c)] = len(items)
             items.append({'kind': 'fn', 'file': os.path.join(REPO, c.file), 'path': c.path, 'anchors': anchors,
                           'replace_stmt': c.replace_stmt, 'replace_expr': c.replace_expr,
